@@ -48,6 +48,11 @@ CHECKS = {
     category='exploration', design='4/C20',
     text="600 generated products per quick run (2-6 U incl. powers, structured pairs sharing an index that is contracted-only / also on a third object / a target, denominators, 1-2 terms, explicit or Einstein targets fixed by the input, evaluate_deltas on/off).",
     note="Trusted: Cayley transform + modular inverse (orthogonality asserted at run time), TM evaluator. Which indices are targets is fixed by the input (explicitly or by the summation convention on the input term)."),
+ 'C13': dict(
+    technique="runtime monitor: value oracle (F_p tensor model with orbital energies, symbolic denominator D := 1/(sum e_upper - sum e_lower), diagonal / block-diagonal Fock models) on every fraction-algebra operation of generated terms",
+    category='exploration', design='4/C13',
+    text="~600 generated inputs per quick run, ~2400 operations (split+recombine, canonicalize_sign, permute_num, cancel_orb_energy_frac, symbolic<->explicit denominators, factor_eri_parts, factor_denom, diagonalize_fock, block_diagonalize_fock) compared on all target assignments; documented refusals counted per operation.",
+    note="Trusted: TM evaluator incl. element-wise modular inversion of brackets; real orbital basis."),
 }
 
 NOT_YET = {}
